@@ -1045,7 +1045,22 @@ func runCE2E(r *verifsim.Run) {
 	}
 	for _, cn := range sc.Conns {
 		if cn.Cfg.throttled() {
-			sc.Conns = []*cConn{cn} // a throttled run has exactly one connection
+			sc.Conns = []*cConn{cn}
+			if r.Chance(1, 3) {
+				// the camera daemon restarts with a camera of another frame rate: the budget is counted in
+				// frames of the *current* camera (config unchanged)
+				cfg2 := cn.Cfg
+				cfg2.Fps = r.OneOf(1, 2, 3, 5, 9)
+				cn2 := genConn(r, r.Prop, cfg2, 5000)
+				var ev []cEvent
+				for _, e := range cn2.Ev {
+					if e.Kind != 'T' {
+						ev = append(ev, e)
+					}
+				}
+				cn2.Ev = ev
+				sc.Conns = append(sc.Conns, cn2)
+			}
 			break
 		}
 	}
@@ -1062,11 +1077,7 @@ func checkE2E(r *verifsim.Run, sc *cScenario, res *cResult) {
 		return
 	}
 	r.SimTime(res.End.Sub(res.Start))
-	type want struct {
-		rec refRec
-		cn  *cConn
-	}
-	expByDir := map[string][]want{}
+	expByDir := map[string][]wantRec{}
 	sent := map[int]*cEvent{}
 	var span = [2]time.Time{res.Start, res.End}
 	nFilesExpected := 0
@@ -1149,7 +1160,11 @@ func checkE2E(r *verifsim.Run, sc *cScenario, res *cResult) {
 		recs, tr := reference(cn, cr.ProcTimes, nSent)
 		_ = tr
 		if c.throttled() {
-			checkThrottledConn(r, cn, cr, recs, res)
+			var before []string
+			if ci > 0 {
+				before = res.Conns[ci-1].FilesAfter
+			}
+			checkThrottledConn(r, cn, cr, recs, res, before)
 			if r.Failed() {
 				return
 			}
@@ -1166,7 +1181,7 @@ func checkE2E(r *verifsim.Run, sc *cScenario, res *cResult) {
 			if rc.Sink == zz.SinkCont {
 				dir = "constant-recordings"
 			}
-			expByDir[dir] = append(expByDir[dir], want{rc, cn})
+			expByDir[dir] = append(expByDir[dir], wantRec{rc, cn})
 			nFilesExpected++
 		}
 		r.Count("frames", nSent)
@@ -1213,7 +1228,7 @@ func checkE2E(r *verifsim.Run, sc *cScenario, res *cResult) {
 		}
 	}
 	for _, dir := range []string{".", "constant-recordings"} {
-		if dir == "." && len(sc.Conns) == 1 && sc.Conns[0].Cfg.throttled() {
+		if dir == "." && sc.Conns[0].Cfg.throttled() {
 			continue // decided by checkThrottledConn
 		}
 		exp := expByDir[dir]
@@ -1234,6 +1249,12 @@ func checkE2E(r *verifsim.Run, sc *cScenario, res *cResult) {
 			if d.Err != "" {
 				r.Violate("C11", "C11.decode", "", "file %s/%s does not decode with the standard reader: %s", dir, filepath.Base(d.Name), d.Err)
 				r.Violate("C10", "C10.incomplete-cptv", "final", "file %s/%s bears the .cptv name but does not decode: %s", dir, filepath.Base(d.Name), d.Err)
+				return
+			}
+		}
+		if dir == "." && (r.Prop == "C01" || r.Prop == "C02" || r.Prop == "C03") {
+			attributeRecordingRules(r, sc, exp2recs(exp), act, sent)
+			if r.Failed() {
 				return
 			}
 		}
@@ -1379,7 +1400,7 @@ func unitsC() []verifsim.Unit {
 			Assumptions: []string{"leptond's sendCameraSpecs cannot be executed (SPI hardware): marker and header keys are compared statically (AST), labelled static"},
 		},
 		{
-			Name: "C.e2e", Props: []string{"C11", "C14", "C13", "C17", "C12", "C10", "C04", "C05", "C06"}, Run: runCE2E, MinimiseRuns: 60,
+			Name: "C.e2e", Props: []string{"C11", "C14", "C13", "C17", "C12", "C10", "C04", "C05", "C06", "C01", "C02", "C03"}, Run: runCE2E, MinimiseRuns: 60,
 			Rule:    "one case = 1-2 camera connections, each with generated config.toml (device, location, recorder, motion keys present or left to the camera-model default, throttle on with an ample bucket or off) + generated camera description (lepton3 / lepton3.5 / boson) + frame stream (scene with a warm blob, bad frames, clear markers, test-recording requests) cut into seeded chunk sizes, optionally cut in the middle of the last frame; every finished .cptv is decoded with go-cptv's reader and compared with the recordings that the expected settings and the sent frames call for; non-trivial = at least one finished recording; distinct = full scenario description",
 			Measure: "c.e2e = (camera model, connections, finished files)",
 			Real:    realC, Stub: stubC,
@@ -1773,7 +1794,17 @@ func cameraSched(cn *cConn, conn net.Conn) {
 // frames of the unthrottled recordings, in order, pixel-exact; (2) obey the stated bound over
 // every interval (write instants = the instants at which the daemon processed the frames);
 // (3) hold at least a minimum clip (min-secs+preview-secs) when cut by the throttle.
-func checkThrottledConn(r *verifsim.Run, cn *cConn, cr *cConnResult, recs []refRec, res *cResult) {
+func checkThrottledConn(r *verifsim.Run, cn *cConn, cr *cConnResult, recs []refRec, res *cResult, before []string) {
+	existed := map[string]bool{}
+	for _, f := range before {
+		existed[f] = true
+	}
+	created := map[string]bool{}
+	for _, f := range cr.FilesAfter {
+		if !existed[f] {
+			created[f] = true
+		}
+	}
 	c := &cn.Cfg
 	M := (c.MinS + c.Preview) * c.Fps
 	C := float64(c.BucketS * c.Fps)
@@ -1805,8 +1836,8 @@ func checkThrottledConn(r *verifsim.Run, cn *cConn, cr *cConnResult, recs []refR
 	}
 	var files []string
 	for _, f := range res.Final {
-		if strings.HasSuffix(f, ".cptv") && filepath.Dir(f) == "." {
-			files = append(files, f)
+		if strings.HasSuffix(f, ".cptv") && filepath.Dir(f) == "." && created[f] {
+			files = append(files, f) // files finished during this connection
 		}
 	}
 	if r.Replay {
@@ -1896,4 +1927,112 @@ func checkThrottledConn(r *verifsim.Run, cn *cConn, cr *cConnResult, recs []refR
 	}
 	r.Count("throttled_files", len(files))
 	_ = nCut
+}
+
+type wantRec struct {
+	rec refRec
+	cn  *cConn
+}
+
+func exp2recs(exp []wantRec) []refRec {
+	var out []refRec
+	for _, e := range exp {
+		out = append(out, e.rec)
+	}
+	return out
+}
+
+// attributeRecordingRules: world-C half of C01-C03. The finished files of the output directory are
+// mapped back to frame ids (Lepton: through TimeOn) and compared with the recordings the expected
+// settings call for, so that a defect in how config.toml reaches the processor (min/max/preview
+// seconds, trigger frames) is reported by the property it breaks.
+func attributeRecordingRules(r *verifsim.Run, sc *cScenario, exp []refRec, act []*cDecoded, sent map[int]*cEvent) {
+	if len(sc.Conns) != 1 || sc.Conns[0].Cfg.boson() {
+		return
+	}
+	byTimeOn := map[time.Duration]int{}
+	for id, e := range sent {
+		byTimeOn[e.Tel.TimeOn()] = id
+	}
+	var files [][]int
+	for _, d := range act {
+		if d.Err != "" {
+			return
+		}
+		var ids []int
+		for _, fr := range d.Frames {
+			if fr.Status.BackgroundFrame {
+				continue
+			}
+			id, ok := byTimeOn[fr.Status.TimeOn]
+			if !ok {
+				return
+			}
+			ids = append(ids, id)
+		}
+		files = append(files, ids)
+	}
+	same := func(a, b []int) bool {
+		if len(a) != len(b) {
+			return false
+		}
+		for i := range a {
+			if a[i] != b[i] {
+				return false
+			}
+		}
+		return true
+	}
+	// drop test recordings (they legitimately overlap motion recordings)
+	var motionFiles [][]int
+	for _, f := range files {
+		isTest := false
+		for _, e := range exp {
+			if e.Sink != 0 && same(e.IDs, f) {
+				isTest = true
+			}
+		}
+		if !isTest && len(f) > 0 {
+			motionFiles = append(motionFiles, f)
+		}
+	}
+	seen := map[int]bool{}
+	for k, f := range motionFiles {
+		for i, id := range f {
+			if i > 0 && id != f[i-1]+1 && sent[id] != nil {
+				// ids are consecutive per delivered frame; bad frames leave holes only at recording ends
+				r.Violate("C01", "C01.order", "file:gap", "finished file %d holds frame id %d after %d", k, id, f[i-1])
+				return
+			}
+			if seen[id] {
+				r.Violate("C01", "C01.dup", "file", "frame id %d is stored in two motion recordings", id)
+				return
+			}
+			seen[id] = true
+		}
+	}
+	for _, e := range exp {
+		if e.Sink != 0 || len(e.IDs) == 0 {
+			continue
+		}
+		for _, f := range motionFiles {
+			if f[0] == e.IDs[0] && len(f) != len(e.IDs) {
+				sig := "file:short"
+				if len(f) > len(e.IDs) {
+					sig = "file:long"
+				}
+				r.Violate("C03", "C03.length", sig, "the recording starting with frame id %d holds %d frames; min-secs/max-secs of config.toml call for %d", f[0], len(f), len(e.IDs))
+				return
+			}
+			if f[len(f)-1] == e.IDs[len(e.IDs)-1] && f[0] != e.IDs[0] {
+				sig := "file:short"
+				if f[0] < e.IDs[0] {
+					sig = "file:long"
+				}
+				r.Violate("C02", "C02.first", sig, "the recording ending with frame id %d starts with frame id %d; preview-secs/trigger-frames of config.toml call for %d", f[len(f)-1], f[0], e.IDs[0])
+				return
+			}
+		}
+	}
+	r.Probe("world-c-files-mapped-to-frames")
 }
